@@ -4,7 +4,7 @@
 import json, os, subprocess, sys
 sys.path.insert(0, os.path.dirname(os.path.dirname(os.path.abspath(__file__))))
 from harness import fingerprint, common
-files = sorted({f for l in open(os.path.join(common.VERIF, "properties.jsonl")) for f in json.loads(l).get("anchors", {}).get("files", [])})
+files = sorted({f for l in open(os.path.join(common.VERIF, "properties.jsonl")) for f in fingerprint.files_of(json.loads(l)["id"])})
 rev = subprocess.run(["git", "-C", common.REPO, "rev-parse", "HEAD"], capture_output=True, text=True).stdout.strip()
 json.dump({"repo_revision": rev, "files": fingerprint.current(files)}, open(fingerprint.BASELINE, "w"), indent=1, sort_keys=True)
 print(len(files), "files,", sum(len(v) for v in fingerprint.current(files).values()), "units at", rev)
